@@ -46,12 +46,12 @@ def mKey (d : DS) (tok : String) : Nat × Nat :=
       | none => (0, 1000000 + k)
   | none => (0, 0)
 
-def genOf (d : DS) (k : Nat) (tok : String) : Nat :=
+def genOf (d : DS) (k : Nat) (tok : String) : Int :=
   let base := (KafVerif.Group.lookup d.lastGen k).getD 0
   if tok = "@" then base
   else if tok = "@+1" then base + 1
-  else if tok = "@-1" then base - 1
-  else tok.toNat?.getD 0
+  else if tok = "@-1" then ((base - 1 : Nat) : Int)
+  else tok.toInt?.getD 0
 
 def phaseStr : Phase → String
   | .empty => "empty" | .preparing => "preparing" | .completing => "completing"
